@@ -11,6 +11,10 @@ CHECKS = {
    text="TLC proves the validator's scope algorithm equal to the declarative statement of the property for all marker histories <= 5 (1.0M states); every history <= 3 (quick) / <= 4 plus simulated deeper ones (thorough) is realised as an events file (single row, equal-onset rows, Delay-shifted groups, case variants), validated by the real TabularInput.validate, and the per-marker verdicts plus an observable probe of the open-scope set are validated by TLC against Temporal.tla (order inside a time point left to TLC)",
    note="bounded history length and 3 definition names; issue-to-marker attribution via the issue's source tag",
    technique="TLA+ spec + TLC model checking; exhaustive history replay; TLC trace validation"),
+ "C20": dict(
+   text="TLC proves the incremental context computation equal to the declarative one (processes with start < t < end) for all histories with <= 4 time points and <= 4 process actions over Onset/Offset of 2 names and Duration groups (253k states); every history in bounds (T=3,A=3 quick; T=4,A=4 thorough) is realised as a valid events file (unit spellings, Delay-shifted groups, equal-onset rows, plain tags) and run through the real EventManager: started processes, context, residual annotation and process end indices are compared with the values TLC emitted; unordered files must be rejected",
+   note="bounded histories; times are integer ms; process identity by unique tags; follower entries of an equal-onset time point are compared leniently (see DESIGN.md)",
+   technique="TLA+ spec + TLC model checking; exhaustive behaviour replay with TLC-computed expected state"),
 }
 ALL = ["C%02d" % i for i in range(1, 21)]
 m = {
